@@ -30,7 +30,23 @@ def available():
     return sorted(f[:-3].upper() for f in os.listdir(os.path.join(HERE, "props")) if re.fullmatch(r"c[0-9]{2,3}\.py", f))
 
 
+def limit_memory():
+    """A change to the code under test may make it allocate without bound (e.g. state shared between calls):
+    the address space of this process is capped so that such a case ends in MemoryError (reported as a
+    failing case) instead of the whole check being killed.  Child processes (coqc) get the old limit back."""
+    try:
+        import resource
+        soft, hard = resource.getrlimit(resource.RLIMIT_AS)
+        cap = int(os.environ.get("N0V_MEM_GB", "8")) * (1 << 30)
+        if hard == resource.RLIM_INFINITY or cap < hard:
+            resource.setrlimit(resource.RLIMIT_AS, (cap, hard))
+        os.environ["N0V_OLD_AS_SOFT"] = str(soft)
+    except Exception:  # noqa
+        pass
+
+
 def main(argv):
+    limit_memory()
     import_error = None
     try:
         import n0struct
